@@ -17,7 +17,7 @@
    Not stated here: that the phases after SubgraphMerge::new cannot fail (checked by
    correspondence: the implementation never panicked there on any generated graph). *)
 From Coq Require Import List String NArith Bool.
-From HV Require Import Partition.Base GraphAlg.Model GraphAlg.PTopo Partition.Model Partition.PC19 Gen.OpsTable.
+From HV Require Import Partition.Base GraphAlg.Model GraphAlg.PTopo Partition.Model Partition.PC19 Partition.PKahn Gen.OpsTable.
 Import ListNotations.
 Open Scope N_scope.
 Open Scope string_scope.
@@ -38,6 +38,16 @@ Theorem C19_acyclic_accepted : forall (T : optable) (g : graph),
   (~ exists c, is_cycle (same_tick_deps T g) c) -> partition_verdict T g = Accepted.
 Proof. exact acyclic_accepted. Qed.
 Print Assumptions C19_acyclic_accepted.
+
+(* The independent oracle the check uses to re-decide cyclicity on the implementation's outputs
+   (Kahn-style elimination, Partition/Model.v has_cycle_b) decides exactly the right-hand side of
+   C19_rejects_iff_cycle. *)
+Theorem C19_oracle_correct : forall (T : optable) (g : graph),
+  deps_closed_b T g = true ->
+  (has_cycle_b (same_tick_deps T g) (node_ids g) = true <->
+   exists c, is_cycle (same_tick_deps T g) c).
+Proof. exact c19_oracle_correct. Qed.
+Print Assumptions C19_oracle_correct.
 
 (* ---- known finding 1:  `a = defer_tick(); a -> a;`
    The only edge is delayed, so the same-tick dependency graph is empty (acyclic), yet
